@@ -98,16 +98,25 @@ def _split_always(u, action):
 def _split_liveness(u, recurrence, persistence):
     """Collect one generalized Streett pair."""
     assert not persistence  # GR(1), not GR(k)
+    earlier_recurrence = bool(recurrence)
+    recurrence_disjunct = False
     flat_disj = flatten_op(u, r'\/')
     for v in flat_disj.operands:
         op = v.operator
         if op == '<>':
+            # a persistence disjunct together with a recurrence
+            # conjunct collected earlier makes two Streett pairs
+            assert not earlier_recurrence, recurrence
             w, = v.operands
             assert w.operator == '[]', w
             state, = w.operands
             assert not _has_operator(state, ['[]', '<>', 'X'])
             persistence.append(state)
         elif op in ('/\\', '[]'):
+            # the conjunction of recurrence formulas is
+            # one disjunct of the Streett pair
+            assert not recurrence_disjunct, v
+            recurrence_disjunct = True
             _split_recurrence(v, recurrence)
         else:
             raise ValueError(op)
